@@ -46,7 +46,28 @@ fn main() {
         .enable_all()
         .build()
         .unwrap();
-    let ok = rt.block_on(checks::dispatch(&ctx, &mut rep));
+    // a panic on the driver's own thread ends this shard; what it means depends on where it was raised
+    let ok = match std::panic::catch_unwind(std::panic::AssertUnwindSafe(|| rt.block_on(checks::dispatch(&ctx, &mut rep)))) {
+        Ok(ok) => ok,
+        Err(_) => {
+            let panics = inst::take_server_panics();
+            match panics.last() {
+                Some(p) if p.location.starts_with("/repo/") => {
+                    // iggy's own code (SDK side) panicked while the driver was calling it: a client-side crash is a finding of the check that provoked it
+                    let file = p.location.rsplit('/').next().unwrap_or("").to_string();
+                    rep.violation(report::Violation {
+                        property: check.clone(),
+                        clause: "no-panic".into(),
+                        signature: format!("{check}:no-panic/client-side/{file}"),
+                        witness: serde_json::json!({"first_bad": {"panic_in_iggy_code_on_the_client_side": p}, "note": "the shard stopped here"}),
+                    });
+                }
+                Some(p) => rep.inconclusive(&format!("harness-panic:{}", p.location.rsplit('/').next().unwrap_or(""))),
+                None => rep.inconclusive("harness-panic"),
+            }
+            true
+        }
+    };
     rep.wall_s = start.elapsed().as_secs_f64();
     let _ = std::fs::remove_dir_all(inst::scratch_root());
     if let Err(e) = rep.write(&out) {
